@@ -71,6 +71,11 @@ def pairs_of_op(op):
         return [(f, t, bool(fn or tn)) for f, fn in op[1] for t, tn in op[2]]
     if k == "connect_single":
         return [(op[1][0], op[2][0], bool(op[1][1] or op[2][1]))]
+    if k == "reuse":
+        # one operand list object used for several requests in a row
+        if op[1] in ("rshift", "connect_to"):
+            return [(a, b, bool(dis)) for a in op[2] for b, dis in op[3]]
+        return [(b, a, bool(dis)) for a in op[2] for b, dis in op[3]]
     return []
 
 
@@ -85,10 +90,12 @@ def model_apply(E, op):
 class World:
     """The real library side."""
 
-    def __init__(self, n_initial=0, types=None, base=0):
+    def __init__(self, n_initial=0, types=None, base=0, version=None):
         from rv.api import Project
 
         self.project = Project()
+        if version:
+            self.project.sunvox_version = tuple(version)  # the file version the project will be written as
         self.foreign = Project()
         self._mk(self.foreign, "Amplifier")
         self._mk(self.foreign, "Amplifier")
@@ -154,6 +161,20 @@ class World:
             p.connect([self.wrap(x) for x in op[1]], [self.wrap(x) for x in op[2]])
         elif k == "connect_single":
             p.connect(self.wrap(op[1]), self.wrap(op[2]))
+        elif k == "reuse":
+            items = [self.wrap(x) for x in op[3]]
+            before = list(items)
+            for a in op[2]:
+                if op[1] == "rshift":
+                    M(a) >> items
+                elif op[1] == "lshift":
+                    M(a) << items
+                elif op[1] == "connect_to":
+                    p.connect(M(a), items)
+                else:
+                    p.connect(items, M(a))
+                if len(items) != len(before) or any(x is not y for x, y in zip(items, before)):
+                    raise PropertyViolation("C07.operand_list_modified", "the list passed as an operand was changed by the request (%r -> %r)" % ([type(x).__name__ for x in before], [type(x).__name__ for x in items]))
         elif k == "xlink":
             F = self.foreign.modules
             a, b = F[op[1] % len(F)], F[op[2] % len(F)]
